@@ -90,7 +90,8 @@ prop("C05", module="MW.Props.C05", title="pro-rata, at-most-once withdrawal",
 prop("C06", module="MW.Props.C06", title="batch lifecycle and timing",
      variants=["submit_batch", "receive_unstaked_tokens", "liquid_unstake", "instantiate"],
      state_keys=["batches", "pending"],
-     weights={"submit": 22, "deliver": 16, "advance": 22, "unstake": 14, "stake": 10},
+     weights={"submit": 22, "deliver": 16, "advance": 22, "unstake": 14, "stake": 10, "update_config": 5},
+     profile={"reroute": 0.5},
      assumptions=["block time is whole nanoseconds; deadlines compare whole seconds (env.block.time.seconds())"])
 
 prop("C19", module="MW.Props.C19", title="token-factory messages in both builds",
